@@ -395,9 +395,35 @@ Qed.
 Lemma rep_app_nil en ops : Rep en ops -> Rep en (ops ++ []).
 Proof. now rewrite app_nil_r. Qed.
 
-(* the only place that depends on what an ACK token means *)
+(* ---- what an ACK token means ------------------------------------------------ *)
+(* The model's ACK loop is the variant that the specification's flag names.  This is the
+   lemma that stops compiling when Model/Cap.v ack_step and Spec/CapSpec.v
+   ack_removal_aware are not switched together. *)
+Lemma ack_step_matches tmp en tok :
+  ack_step tmp en tok = ack_step_gen ack_removal_aware tmp en tok.
+Proof.
+  unfold ack_step, ack_step_gen, ack_removed. destruct tok as [|b t]; [reflexivity|].
+  destruct (N.eqb b 45); reflexivity.
+Qed.
+
+Definition ack_ops_gen (a : bool) (tok : str) : list cap_op :=
+  if a then match ack_removed tok with Some name => [OpRem name] | None => [OpAdd tok] end
+  else [OpAdd tok].
+
+Lemma ack_ops_gen_eq tok : ack_ops tok = ack_ops_gen ack_removal_aware tok.
+Proof. reflexivity. Qed.
+
+Lemma rep_ack_step_gen a tmp en ops tok :
+  Rep en ops -> Rep (ack_step_gen a tmp en tok) (ops ++ ack_ops_gen a tok).
+Proof.
+  intros R. unfold ack_step_gen, ack_ops_gen. destruct a; [destruct (ack_removed tok)|].
+  - now apply rep_rem.
+  - destruct (aget tok tmp); now apply rep_add.
+  - destruct (aget tok tmp); now apply rep_add.
+Qed.
+
 Lemma rep_ack_step tmp en ops tok : Rep en ops -> Rep (ack_step tmp en tok) (ops ++ ack_ops tok).
-Proof. intros R. unfold ack_step, ack_ops. destruct (aget tok tmp); now apply rep_add. Qed.
+Proof. rewrite ack_step_matches, ack_ops_gen_eq. apply rep_ack_step_gen. Qed.
 
 Lemma rep_ack_fold tmp toks : forall en ops,
   Rep en ops -> Rep (fold_left (ack_step tmp) toks en) (ops ++ flat_map ack_ops toks).
@@ -537,59 +563,157 @@ Proof.
       apply in_flat_map in H as (j & Hj & H). exact (L j Hj H).
 Qed.
 
-(* what one line adds / removes — the reading of ACK tokens of the CURRENT code *)
-Lemma acks_iff ps k :
-  enabled_by (event_ops ps) k <-> is_ack ps = true /\ is_del ps = false /\ In k (cap_tokens ps).
+(* ---- what one line adds / removes, for either reading of ACK tokens --------------- *)
+Lemma ack_removed_Some t nm : ack_removed t = Some nm <-> t = 45 :: nm.
 Proof.
-  unfold event_ops. destruct (is_del ps) eqn:D.
-  - split; [|intros (_ & H & _); discriminate].
+  destruct t as [|b t]; cbn; [split; discriminate|]. destruct (N.eqb b 45) eqn:E.
+  - apply N.eqb_eq in E. subst. split; intro H; inversion H; reflexivity.
+  - apply N.eqb_neq in E. split; [discriminate|]. intro H; inversion H; congruence.
+Qed.
+
+Definition tok_enabled (a : bool) (toks : list str) (k : str) : Prop :=
+  exists pre post, toks = pre ++ k :: post /\
+    (a = true -> ack_removed k = None /\ ~ In (45 :: k) post).
+
+Lemma tok_enabled_nil a k : ~ tok_enabled a [] k.
+Proof. intros (pre & post & E & _). destruct pre; discriminate. Qed.
+
+Lemma tok_enabled_snoc a toks t k :
+  tok_enabled a (toks ++ [t]) k <->
+  (t = k /\ (a = true -> ack_removed k = None)) \/
+  (tok_enabled a toks k /\ (a = true -> t <> 45 :: k)).
+Proof.
+  split.
+  - intros (pre & post & E & C). induction post as [|x post _] using rev_ind.
+    + apply app_inj_tail in E as [_ E]. left. split; [exact E|]. intro A. now apply C.
+    + right. rewrite app_comm_cons, app_assoc in E. apply app_inj_tail in E as [E E']. subst x.
+      split.
+      * exists pre, post. split; [exact E|]. intro A. destruct (C A) as [C1 C2]. split; [exact C1|].
+        intro H. apply C2. apply in_or_app. auto.
+      * intros A H. destruct (C A) as [_ C2]. apply C2. apply in_or_app. right. left. exact H.
+  - intros [[-> C]|[(pre & post & E & C) D]].
+    + exists toks, []. split; [reflexivity|]. intro A. split; [now apply C|intros []].
+    + exists pre, (post ++ [t]). split; [rewrite E, <- app_assoc; reflexivity|].
+      intro A. destruct (C A) as [C1 C2]. split; [exact C1|].
+      intro H. apply in_app_or in H as [H|[H|[]]]; [auto|exact (D A H)].
+Qed.
+
+Lemma flat_ack_enabled a toks k :
+  enabled_by (flat_map (ack_ops_gen a) toks) k <-> tok_enabled a toks k.
+Proof.
+  induction toks as [|t toks IH] using rev_ind.
+  - cbn. split; intro H; exfalso; [exact (enabled_by_nil k H)|exact (tok_enabled_nil a k H)].
+  - rewrite flat_map_app, tok_enabled_snoc. cbn [flat_map]. rewrite app_nil_r.
+    unfold ack_ops_gen at 2. destruct a.
+    + destruct (ack_removed t) as [nm|] eqn:R.
+      * pose proof (proj1 (ack_removed_Some t nm) R) as T.
+        rewrite enabled_by_snoc_rem, IH. split.
+        -- intros [D H]. right. split; [exact H|]. intros _ E. subst t. inversion E. congruence.
+        -- intros [[-> C]|[H D]].
+           ++ rewrite (C eq_refl) in R. discriminate.
+           ++ split; [|exact H]. intro E. apply (D eq_refl). congruence.
+      * rewrite enabled_by_snoc_add, IH. split.
+        -- intros [->|H]; [left; split; [reflexivity|intros _; exact R]|].
+           right. split; [exact H|]. intros _ E. subst t. cbn in R. discriminate.
+        -- intros [[-> _]|[H _]]; auto.
+    + rewrite enabled_by_snoc_add, IH. split.
+      * intros [->|H]; [left; split; [reflexivity|discriminate]|right; split; [exact H|discriminate]].
+      * intros [[-> _]|[H _]]; auto.
+Qed.
+
+Lemma flat_ack_removes a toks k :
+  In (OpRem k) (flat_map (ack_ops_gen a) toks) <-> a = true /\ In (45 :: k) toks.
+Proof.
+  rewrite in_flat_map. unfold ack_ops_gen. split.
+  - intros (t & Ht & H). destruct a; [|destruct H as [H|[]]; discriminate].
+    destruct (ack_removed t) as [nm|] eqn:R; destruct H as [H|[]]; [|discriminate].
+    inversion H; subst nm. apply ack_removed_Some in R. subst t. auto.
+  - intros [-> H]. exists (45 :: k). split; [exact H|]. cbn. left. reflexivity.
+Qed.
+
+Lemma flat_map_ack_ops toks : flat_map ack_ops toks = flat_map (ack_ops_gen ack_removal_aware) toks.
+Proof. reflexivity. Qed.
+
+Lemma is_del_not_ack ps : is_del ps = true -> is_ack ps = false.
+Proof.
+  destruct lit_distinct as (D1 & D2 & D3 & D4 & _).
+  unfold is_del, is_ack. intros H. apply andb_true_iff in H as [_ H].
+  rewrite (sub_is_excl ps s_DEL s_ACK H D4), andb_false_r. reflexivity.
+Qed.
+
+Lemma acks_iff ps k : enabled_by (event_ops ps) k <-> is_del ps = false /\ acked_by ps k.
+Proof.
+  unfold event_ops, acked_by. destruct (is_del ps) eqn:D.
+  - split; [|intros (H & _); discriminate].
     intros (a & b & E & _). exfalso.
     assert (H : In (OpAdd k) (List.map (fun tok => OpRem (cap_token_name tok)) (cap_tokens ps))).
     { rewrite E. apply in_or_app. right. left. reflexivity. }
     apply in_map_iff in H as (t & H & _). discriminate.
   - destruct (is_ack ps) eqn:A.
-    + assert (F : forall l, flat_map ack_ops l = List.map OpAdd l).
-      { induction l as [|x l IH]; cbn; [reflexivity|]. now rewrite IH. }
-      rewrite F. split.
-      * intros (a & b & E & _). repeat split.
-        assert (H : In (OpAdd k) (List.map OpAdd (cap_tokens ps))) by (rewrite E; apply in_or_app; right; left; reflexivity).
-        apply in_map_iff in H as (t & H & Ht). congruence.
-      * intros (_ & _ & H). apply in_split in H as (l1 & l2 & ->).
-        exists (List.map OpAdd l1), (List.map OpAdd l2). split; [now rewrite map_app|].
-        intro H. apply in_map_iff in H as (t & H & _). discriminate.
-    + split; [intro H; exfalso; exact (enabled_by_nil k H)|intros (H & _); discriminate].
+    + rewrite flat_map_ack_ops, flat_ack_enabled. unfold tok_enabled. tauto.
+    + split; [intro H; exfalso; exact (enabled_by_nil k H)|intros (_ & H & _); discriminate].
 Qed.
 
-Lemma removes_iff i k :
-  removes i k <-> is_del (in_params i) = true /\
-                  In k (List.map cap_token_name (cap_tokens (in_params i))).
+Lemma removes_iff i k : removes i k <-> removed_by (in_params i) k.
 Proof.
-  unfold removes, event_ops. destruct (is_del (in_params i)) eqn:D.
-  - rewrite <- map_map. split.
-    + intro H. apply in_map_iff in H as (t & H & Ht). split; [reflexivity|congruence].
-    + intros [_ H]. now apply in_map.
-  - split; [|intros [H _]; discriminate]. destruct (is_ack (in_params i)).
-    + intro H. apply in_flat_map in H as (t & _ & [H|[]]). discriminate.
-    + intros [].
+  unfold removes, removed_by, event_ops. destruct (is_del (in_params i)) eqn:D.
+  - rewrite (is_del_not_ack _ D), <- map_map. split.
+    + intro H. apply in_map_iff in H as (t & H & Ht). left. split; [reflexivity|congruence].
+    + intros [[_ H]|(_ & H & _)]; [now apply in_map|discriminate].
+  - destruct (is_ack (in_params i)).
+    + rewrite flat_map_ack_ops, flat_ack_removes. split.
+      * intros [A H]. right. auto.
+      * intros [[H _]|(A & _ & H)]; [discriminate|auto].
+    + split; [intros []|]. intros [[H _]|(_ & H & _)]; discriminate.
 Qed.
 
 Lemma C08_has_capability_proof cfg s0 h connected n :
   has_capability connected (st_enabled (cap_after cfg (cap_init s0) h)) n = true <->
   connected = true /\
   exists k, to_lower_ascii k = to_lower_ascii n /\
-  exists h1 i h2, h = h1 ++ i :: h2 /\
-    (is_ack (in_params i) = true /\ In k (cap_tokens (in_params i))) /\
-    forall j, In j h2 ->
-      ~ (is_del (in_params j) = true /\ In k (List.map cap_token_name (cap_tokens (in_params j)))).
+  exists h1 i h2, h = h1 ++ i :: h2 /\ acked_by (in_params i) k /\
+                  forall j, In j h2 -> ~ removed_by (in_params j) k.
 Proof.
   rewrite C08_has_capability_ops_proof. split; intros [C (k & L & H)]; (split; [exact C|]); exists k; (split; [exact L|]).
   - apply enabled_by_events in H as (h1 & i & h2 & E & A & R). exists h1, i, h2. split; [exact E|].
-    apply acks_iff in A as (A1 & _ & A2). split; [auto|]. intros j Hj Hr. apply (R j Hj). now apply removes_iff.
-  - destruct H as (h1 & i & h2 & E & (A1 & A2) & R). apply enabled_by_events. exists h1, i, h2.
+    apply acks_iff in A as (_ & A). split; [exact A|]. intros j Hj Hr. apply (R j Hj). now apply removes_iff.
+  - destruct H as (h1 & i & h2 & E & A & R). apply enabled_by_events. exists h1, i, h2.
     split; [exact E|]. split.
-    + apply acks_iff. repeat split; auto.
-      pose proof (classify_inv (in_params i)) as I. rewrite (classify_ack _ A1) in I. tauto.
+    + apply acks_iff. split; [|exact A]. destruct A as [A _].
+      pose proof (classify_inv (in_params i)) as I. rewrite (classify_ack _ A) in I. tauto.
     + intros j Hj Hr. apply (R j Hj). now apply removes_iff.
+Qed.
+
+(* As long as the server acknowledges no removal (no ACK token starts with '-'), both
+   readings of ACK coincide and the ledger is simply "listed by an ACK, not listed by a
+   later DEL". *)
+Lemma C08_has_capability_plain_proof cfg s0 h connected n :
+  no_removal_acks h ->
+  (has_capability connected (st_enabled (cap_after cfg (cap_init s0) h)) n = true <->
+   connected = true /\
+   exists k, to_lower_ascii k = to_lower_ascii n /\
+   exists h1 i h2, h = h1 ++ i :: h2 /\
+     (is_ack (in_params i) = true /\ In k (cap_tokens (in_params i))) /\
+     forall j, In j h2 ->
+       ~ (is_del (in_params j) = true /\ In k (List.map cap_token_name (cap_tokens (in_params j))))).
+Proof.
+  intros NR. rewrite C08_has_capability_proof.
+  split; intros [C (k & L & h1 & i & h2 & E & A & R)]; (split; [exact C|]); exists k; (split; [exact L|]);
+    exists h1, i, h2; (split; [exact E|]).
+  - destruct A as (A1 & pre & post & A2 & _). split.
+    + split; [exact A1|]. rewrite A2. apply in_or_app. right. left. reflexivity.
+    + intros j Hj Hd. apply (R j Hj). left. exact Hd.
+  - destruct A as (A1 & A2).
+    assert (Hi : In i h) by (rewrite E; apply in_or_app; right; left; reflexivity).
+    split.
+    + split; [exact A1|]. pose proof A2 as A3. apply in_split in A3 as (pre & post & A3).
+      exists pre, post. split; [exact A3|]. intros _. split; [exact (NR i k Hi A1 A2)|].
+      intro H. assert (T : In (45 :: k) (cap_tokens (in_params i))).
+      { rewrite A3. apply in_or_app. right. right. exact H. }
+      pose proof (NR i _ Hi A1 T) as Z. cbn in Z. discriminate.
+    + intros j Hj [Hd|(_ & Ha & Ht)]; [exact (R j Hj Hd)|].
+      assert (Hj' : In j h) by (rewrite E; apply in_or_app; right; right; exact Hj).
+      pose proof (NR j _ Hj' Ha Ht) as Z. cbn in Z. discriminate.
 Qed.
 
 (* tags at the socket, over histories *)
